@@ -85,7 +85,26 @@ pub fn request_message_for(r: &Response) -> Vec<u8> {
                 (Value::int(4), Value::Array(vec![Value::Map(vec![(t("alg"), Value::int(-7)), (t("type"), t("public-key"))])])),
             ]),
         ),
-        Response::GetAssertion(_) => message(CMD_GA, &Value::Map(vec![(Value::int(1), t("example.org")), (Value::int(2), Value::Bytes(vec![7; 32]))])),
+        Response::GetAssertion(resp) => {
+            // the request this answer belongs to: often its allowList names the very credential that
+            // is returned (alone, first of two, second of two), sometimes another one, sometimes none
+            let mut m = vec![(Value::int(1), t("example.org")), (Value::int(2), Value::Bytes(vec![7; 32]))];
+            let same = Value::Map(vec![(t("id"), Value::Bytes(resp.credential.id.to_vec())), (t("type"), Value::text(resp.credential.key_type.as_str()))]);
+            let other = Value::Map(vec![(t("id"), Value::Bytes(vec![0xEE; 9])), (t("type"), t("public-key"))]);
+            let sel = (resp.credential.id.len() + resp.signature.len() + resp.auth_data.len()) % 6;
+            let list = match sel {
+                0 => None,
+                1 => Some(vec![same]),
+                2 => Some(vec![same, other]),
+                3 => Some(vec![other, same]),
+                4 => Some(vec![other]),
+                _ => Some(vec![]),
+            };
+            if let Some(l) = list {
+                m.push((Value::int(3), Value::Array(l)));
+            }
+            message(CMD_GA, &Value::Map(m))
+        }
         Response::GetNextAssertion(_) => vec![0x08],
         Response::GetInfo(_) => vec![0x04],
         Response::ClientPin(_) => message(CMD_CP, &Value::Map(vec![(Value::int(1), Value::int(1)), (Value::int(2), Value::int(1))])),
